@@ -873,6 +873,23 @@ class AccessMixin(object):
       res = V(s.ty.with_opt(False), r)
       self.set_update(st, res, mem=mem, card=card)
       yield st, res
+    elif name in ('intersection', 'difference', 'union') and len(args) == 1 and isinstance(args[0], V) and args[0].ty.k in ('set', 'dict', 'ddict'):
+      # a new set: members of this one that are / are not in the other set (or among the keys of a dictionary)
+      o = args[0]
+      other = self.set_mem_arr(st, o) if o.ty.k == 'set' else self.dict_has_arr(st, o)
+      x = z3.Const(fresh_name('x'), base_sort(ety))
+      nm = z3.Const(fresh_name('setop'), z3.ArraySort(base_sort(ety), z3.BoolSort()))
+      body = {'intersection': z3.And(z3.Select(mem, x), z3.Select(other, x)), 'difference': z3.And(z3.Select(mem, x), z3.Not(z3.Select(other, x))),
+              'union': z3.Or(z3.Select(mem, x), z3.Select(other, x))}[name]
+      st.assume(z3.ForAll([x], z3.Select(nm, x) == body))
+      nc = z3.Int(fresh_name('card'))
+      st.assume(z3.And(nc >= 0, (nc == 0) == (nm == z3.EmptySet(base_sort(ety)))))
+      if name != 'union':
+        st.assume(nc <= card)
+      r = self.new_ref(st)
+      res = V(s.ty.with_opt(False), r)
+      self.set_update(st, res, mem=nm, card=nc)
+      yield st, res
     elif name in ('difference_update', 'intersection_update') and len(args) == 1 and isinstance(args[0], V) and args[0].ty.k in ('set', 'dict'):
       # in-place difference / intersection with another set, or with the keys of a dictionary
       o = args[0]
